@@ -545,6 +545,17 @@ class Emitter:
                     cast = '(%s)' % self.signed(ins.ret) if k[0] == 's' else ''
                     o_ = '>' if k.endswith('max') else '<'
                     return lhs + '(%s%s %s %s%s) ? %s : %s;' % (cast, args[0], o_, cast, args[1], args[0], args[1])
+                m = re.match(r'llvm\.(fshl|fshr)\.i(\d+)', bare)
+                if m:
+                    bits = int(m.group(2)); ct = self.cty(ins.ret)
+                    sh = '(%s %% %du)' % (args[2], bits)
+                    if m.group(1) == 'fshl':
+                        return lhs + '(%s)(%s == 0 ? %s : ((%s << %s) | (%s >> (%du - %s))));' % (ct, sh, args[0], args[0], sh, args[1], bits, sh)
+                    return lhs + '(%s)(%s == 0 ? %s : ((%s >> %s) | (%s << (%du - %s))));' % (ct, sh, args[1], args[1], sh, args[0], bits, sh)
+                m = re.match(r'llvm\.(bswap|ctpop|ctlz|cttz|abs)\.', bare)
+                if m and m.group(1) == 'abs':
+                    st = self.signed(ins.ret)
+                    return lhs + '(%s)((%s)%s < 0 ? -(%s)%s : (%s)%s);' % (self.cty(ins.ret), st, args[0], st, args[0], st, args[0])
                 if bare.startswith('llvm.objectsize'): return lhs + '(%s)-1;' % self.cty(ins.ret)
                 if bare.startswith('llvm.is.constant'): return lhs + '0;'
                 raise TypeError('intrinsic ' + bare)
